@@ -30,7 +30,8 @@ RULE = ("paired histories of 25..70 operations over 3..7 raw clients, each execu
         "synthesized errors for receive-denied broadcasts) filtered by vf/models/monitor.py: exactly one copy, true "
         "sender, equal content, per-sender order, nothing unexplained; (c) names released with the proper signals, "
         "queries by a third party, messages to the monitor's old names are answered with an error, old match rules "
-        "dead, EOF after the monitor sends. Run B (control): the same plan, but each future monitor disconnects at "
+        "dead, EOF and no answer after the monitor sends (signals, calls, and destination-less calls / returns / errors with "
+        "and without PATH / INTERFACE in both byte orders). Run B (control): the same plan, but each future monitor disconnects at "
         "its step instead; (b) every other client's observation sequence must be equal in A and B (unique names "
         "renamed by creation order, the BecomeMonitor / disconnect step compared as a multiset, serials of "
         "bus-generated messages and the bus GUID masked). distinct = (message class, filter shape, matched) + "
@@ -52,6 +53,24 @@ MARK_RULE = b"type='signal',interface='org.verif.Marker'"
 NOBODY = 65534
 ACCESS_DENIED = b"org.freedesktop.DBus.Error.AccessDenied"
 ODD_TYPES = [5, 5, 7, 7, 200, 255, 6, 9, 64, 128]
+# what a monitor sends at the end of a history: (class, message type, fields)
+MON_SENDS = [
+    ("signal", 4, dict(path=b"/com/example/a", iface=IF_OK[0], member=b"Changed", sig=b"s", body=[b"alpha"])),
+    ("call", 1, dict(path=BUS_PATH, iface=BUS, member=b"RequestName", dest=BUS, sig=b"su", body=[NAMES[0], 7])),
+    ("call", 1, dict(path=b"/", iface=IF_OK[0], member=b"Foo", dest=b"@peer")),
+    ("call", 1, dict(path=BUS_PATH, iface=BUS, member=b"GetId", dest=BUS)),
+    ("call-without-destination", 1, dict(path=b"/", iface=IF_OK[0], member=b"Foo")),
+    ("call-without-destination", 1, dict(path=b"/com/example/a", member=b"Foo", order="B")),
+    ("call-without-destination", 1, dict(path=b"/", iface=IF_OK[1], member=b"Bar", flags=1, sig=b"s", body=[b"alpha"])),
+    ("return-without-destination", 2, dict(reply_serial=7)),
+    ("return-without-destination", 2, dict(reply_serial=3, path=b"/com/example/a", iface=IF_OK[0], order="B", sig=b"s", body=[b"x"])),
+    ("error-without-destination", 3, dict(reply_serial=7, error_name=b"com.example.Error.Failed")),
+    ("error-without-destination", 3, dict(reply_serial=2, error_name=b"com.example.Error.Failed", path=b"/", iface=IF_OK[1],
+                                          member=b"Foo", order="B")),
+    ("peer-call-without-destination", 1, dict(path=b"/", iface=b"org.freedesktop.DBus.Peer", member=b"Ping")),
+    ("signal", 4, dict(path=b"/", iface=IF_OK[1], member=b"Bar", dest=b"@peer")),
+    ("call-without-destination", 1, dict(path=BUS_PATH, iface=BUS, member=b"GetId")),
+]
 SOCKBUF = 212992          # default SO_SNDBUF of the bus's end of a unix socket; twice that surely is beyond what the kernel holds
 FLOOD_SIZE = 4096
 
@@ -1017,38 +1036,81 @@ class Exec(object):
             # the n-th monitor sends something: it must be disconnected, and nobody may notice
             i = order[n]
             if self.mode == "A" and i in self.mons:
-                c = self.cl[i]
-                kind = (self.hid + n) % 4
+                self.monitor_sends(i, (self.hid + n) % len(MON_SENDS))
+        self.cut("final")
+
+    def monitor_sends(self, i, kind):
+        c = self.cl[i]
+        cls, mtype, kw = MON_SENDS[kind]
+        kw = dict(kw)
+        if kw.get("dest") == b"@peer":
+            kw["dest"] = self.uniq[0]
+        before = len(c.log)
+        serial = None
+        ok = replied = False
+        try:
+            serial, data = c.build(mtype, **kw)
+            c.send_msg(data, serial)
+            if cls == "peer-call-without-destination":
+                # libdbus answers org.freedesktop.DBus.Peer calls that carry no destination inside DBusConnection, before the
+                # bus's dispatch function (and its monitor check) ever runs: recorded as observed, not judged
                 try:
-                    if kind == 0:
-                        c.signal(b"/com/example/a", IF_OK[0], b"Changed", b"s", [b"alpha"])
-                    elif kind == 1:
-                        c.call_async(BUS, BUS_PATH, BUS, b"RequestName", b"su", [NAMES[0], 7])
-                    elif kind == 2:
-                        c.call_async(self.uniq[0], b"/", IF_OK[0], b"Foo")
-                    else:
-                        c.call_async(BUS, BUS_PATH, BUS, b"GetId")
-                    ok = c.wait_eof()
+                    c.inbox = []
+                    c.wait_reply(serial)
+                    replied = True
                 except client.Closed:
                     ok = True
-                self.part.count("monitor-sent")
-                self.part.sig("op", "monitor-sends", kind, ok)
-                self.eof_ok[i] = ok
-                if not ok:
-                    self.violation("monitor-not-disconnected-after-sending", "a monitor sent a message and was still connected "
-                                   "after the watchdog")
-        self.cut("final")
+            else:
+                ok = c.wait_eof()
+        except client.Closed:
+            ok = True
+        self.part.count("monitor-sent")
+        self.part.count("monitor-sent:" + cls)
+        self.part.sig("op", "monitor-sends", kind, ok)
+        self.eof_ok[i] = ok
+        if cls == "peer-call-without-destination":
+            self.part.count("monitor-peer-call:%s" % ("disconnected" if ok else "answered-and-still-connected"))
+            self.mons[i]["stream_end"] = before       # what libdbus answered is outside the judged stream
+            return
+        # nothing may come back to it: it is never the addressee of a delivery
+        uM = self.uniq[i]
+        for rec in c.log[before:]:
+            k = rec.msg.known()
+            # (captured copies of replies to other connections carry those connections' names as destination)
+            if k.get(7) is None or (serial is not None and rec.msg.type in (2, 3) and k.get(5) == serial and k.get(7) == BUS
+                                    and k.get(6) in (None, uM)):
+                self.violation("answer-delivered-to-monitor:" + cls, "a monitor sent a message and was sent an answer to it (%s)"
+                               % (k.get(4) or b"method return").decode("latin1"))
+                break
+        if not ok:
+            self.violation("monitor-not-disconnected-after-sending" + ("" if cls in ("signal", "call") else ":" + cls),
+                           "a monitor sent a message (%s) and was still connected after the watchdog" % cls)
 
     def finish(self):
         for c in self.cl.values():
             c.close()
         if self.daemon is not None:
             self.daemon.stop()
-            return self.daemon.problems()
+            out = []
+            for cls, site, text in self.daemon.problems():
+                if cls == "lsan:leak" and _only_reload_watch_leak(self.daemon.stderr_text()):
+                    # bus/main.c never releases the watch of its reload pipe on the normal quit path; LeakSanitizer reports
+                    # these 64 bytes of process-lifetime memory only when no stale pointer happens to keep them 'reachable'
+                    # (about one daemon in 40000 here).  Allocated in main() before the bus serves anybody: not C18's business.
+                    self.part.count("daemon-exit-leak:setup_reload_pipe")
+                    continue
+                out.append((cls, site, text))
+            return out
         return []
 
 
 # ======================================================================================== judgement (a): monitor streams
+
+def _only_reload_watch_leak(err):
+    blocks = re.split(r"\n(?=(?:Direct|Indirect) leak of )", err.split("ERROR: LeakSanitizer", 1)[-1])
+    leaks = [b for b in blocks if b.startswith(("Direct leak", "Indirect leak"))]
+    return bool(leaks) and all("setup_reload_pipe" in b.split("\n\n")[0] for b in leaks)
+
 
 def _decoded_sent(c):
     out = []
@@ -1205,7 +1267,7 @@ def judge_monitors(ex, part):
                     add(("r", 3, ex.uniq[i], serial, ACCESS_DENIED), view, ever.get(ex.uniq[i], {}), "bus-error:AccessDenied-for-denied-broadcast", None,
                         required=op["denied_n"])
         # the stream
-        stream = [r.msg for r in ex.cl[M].log[m["start"]:]]
+        stream = [r.msg for r in ex.cl[M].log[m["start"]:m.get("stream_end")]]
         # Hello is stamped either ':not.active.yet' or the unique name it is about to create: both are the true sender
         early = set()
         for i, lst in sent.items():
@@ -1550,6 +1612,11 @@ def run(tier, seed, replay=None, scale=1.0):
         r.require("destination-filter-judged", 3000)
         r.require("destination-no-owner-shown", 15)
         r.require("destination-bus-shown", 100)
+        r.require("monitor-sent:call-without-destination", 35)
+        r.require("monitor-sent:return-without-destination", 15)
+        r.require("monitor-sent:error-without-destination", 15)
+        r.require("monitor-sent:signal", 15)
+        r.require("monitor-sent:call", 25)
         r.require("lag-histories", 10)
         r.require("lag-monitors-judged", 10)
         r.require("lag-backlog-beyond-limit", 10)
@@ -1597,5 +1664,7 @@ def run(tier, seed, replay=None, scale=1.0):
         "in the 'monitor lags' histories only monitors stop reading; every ordinary connection reads after at most four 4 KiB messages, "
         "so no ordinary delivery is ever near max_outgoing_bytes; that the lagging monitor's bus-side queue really exceeded the limit "
         "is inferred from the bytes it drained (more than twice the default socket send buffer plus the limit)",
+        "a monitor that sends a destination-less method call on org.freedesktop.DBus.Peer is answered by libdbus inside the bus "
+        "process and not disconnected on the unchanged tree; that one variant is recorded (monitor-peer-call:*) and not judged",
         "only the paired control 'disconnects instead' is run; the 'never connects' control of DESIGN.md is not"]
     return r.finish()
